@@ -323,4 +323,13 @@ def symbolic_iter(I, it, fr):
         if o.kind == "enumerate":
             inner_at, n = symbolic_iter(I, o.data, fr)
             return (lambda i: VTuple([VInt(i), inner_at(i)])), n
+    if isinstance(it, VOpaque) and it.tag in getattr(I.E, "opaque_iter", {}):
+        # abstract finite sequence (e.g. what a generator will produce): length and elements are uninterpreted
+        elem_tag = I.E.opaque_iter[it.tag]
+        ident = it.t if it.t is not None else z3.IntVal(0)
+        flen = z3.Function("uf_len_" + it.tag, smt.Int, smt.Int)
+        felem = z3.Function("uf_elem_" + it.tag, smt.Int, smt.Int, smt.Int)
+        n = flen(ident)
+        st.assume(n >= 0)
+        return (lambda i: VOpaque(elem_tag, felem(ident, zint(i)))), n
     raise Unsupported("symbolic iteration over %s" % I.type_name(it))
